@@ -97,6 +97,29 @@ func main() {
 	stgutg.ManageError("Error in connection to AMF", err)
 	stgutg.ManageNGSetup(conn, string(gnb), c.IMSI, c.MNC, uint64(c.GnbBitLength), c.GnbName)
 
+	if mode == "resetup" {
+		// the interface is set up, a subscriber registers and leaves, the interface is set up again for
+		// another PLMN and a second subscriber registers: nothing of the first setup may survive
+		rp := s.ResetupPLMN
+		mcc2, mnc2 := rp[:3], rp[3:]
+		u1 := tglib.NewRanUeContext("imsi-"+s.Subscribers[0], int64(num(s.Rig, "ran_id", 1)), nea, nia)
+		u1.AuthenticationSubs = tglib.GetAuthSubscription(c.K, c.OPC, c.OP)
+		u1, _, _ = stgutg.RegisterUE(u1, c.MNC, c.MCC, conn)
+		if d, _ := s.Rig["dereg_first"].(bool); d {
+			stgutg.DeregisterUE(u1, c.MNC, conn)
+		}
+		stgutg.ManageNGSetup(conn, string(gnb), rp+"0000000001"[:10-len(mnc2)+2], mnc2, uint64(c.GnbBitLength), c.GnbName)
+		u2 := tglib.NewRanUeContext("imsi-"+s.Subscribers[1], int64(num(s.Rig, "ran_id", 1)+1), nea, nia)
+		u2.AuthenticationSubs = tglib.GetAuthSubscription(c.K, c.OPC, c.OP)
+		u2, _, _ = stgutg.RegisterUE(u2, mnc2, mcc2, conn)
+		w.Log(world.Event{Ev: "ctx", I: 1, UE: 1, Info: map[string]interface{}{"supi": u2.Supi}})
+		stgutg.DeregisterUE(u2, mnc2, conn)
+		w.Summary(true)
+		fmt.Println(">> rig finished")
+		conn.Close()
+		os.Exit(0)
+	}
+
 	if mode == "rereg" {
 		// one UE context registers, deregisters and registers again over the same association (with
 		// other algorithms the second time when the scenario says so): what the context carries from
